@@ -41,6 +41,7 @@ NOTES = {
  "C08-4": "round 2; first missed by C08 (reported by C02); NO-DOWNGRADE added to C08", "C08-5": "round 2; first missed; INCORPORATE-BEFORE-DECIDE added", "C08-6": "round 2; first missed; BOUNDED-QUEUE now requires a single receive site of the hand-off queue",
  "C18-4": "round 2; NOT reported: StartOfDay computed by subtracting the wall-clock time since midnight (wrong across a DST transition) - value level", "C18-5": "round 2", "C18-6": "round 2; first missed; HOMONYM-WRAPPER added",
  "C19-4": "round 2; first missed; CTX-VALUE-AGREEMENT added", "C19-5": "round 2; first missed; NO-GLOBAL-STATE added", "C19-6": "round 2; first missed; COUNT-ONCE forbids branching on the destination's state",
+ "C16-4": "round 2; first missed; TIMER-DEQUEUE-COUPLED one-per-timer clause added", "C16-5": "round 2; first missed by C16; CONSUME-FLAG added to C16", "C16-6": "round 2; first missed; STATE-LEVEL treats running timers as stateful objects",
  "C20-4": "round 2", "C20-5": "round 2", "C20-6": "round 2; NOT reported: core Interval re-armed on absolute deadlines, so ticks missed by a slow observer are emitted back to back (a burst of windows for the native limiter) - timing / quota, not decided",
  "C16-1": "first missed; WATCHDOG-REARM added", "C16-2": "first missed; STATE-LEVEL added to C16 (the counter of a periodic source is per-subscription state)",
  "C20-2": "first missed by C20 (reported by C12): a change to core GroupBy; C20 now re-checks the core premises of the native limiter", "C20-3": "first missed by C20 (reported by C10/C02): a change to the core unicast subject; C20 now re-checks the core premises of the native limiter",
